@@ -887,6 +887,33 @@ fn rec_misc(rc: &mut Rec, r: &mut ChaCha8Rng, thorough: bool) {
             }
         }
     }
+    // large elements: the chunked / transposing variant is taken for arrays of 8 .. 256 elements
+    macro_rules! bigrec {
+        ($n:literal) => {
+            for lg in 0..=8usize {
+                let mut v: Vec<[u64; $n]> = (0..1usize << lg).map(big_elem::<$n>).collect();
+                let src = v.clone();
+                match guarded(|| reverse_index_bits_in_place(&mut v)) {
+                    Ok(()) => {
+                        // the whole element moved, not only its tag
+                        let whole = (0..v.len()).all(|i| v[i] == src[v[i][0] as usize]);
+                        rc.put(json!({"op": "bitrev", "what": concat!("in_place<[u64;", stringify!($n), "]>"), "lg": lg, "bytes": $n * 8,
+                                      "strategy": inplace_strategy($n * 8, lg), "whole": whole,
+                                      "out": v.iter().map(|x| if whole { x[0] } else { u64::MAX >> 12 }).collect::<Vec<_>>()}));
+                    }
+                    Err(msg) => rc.panic(concat!("reverse_index_bits_in_place<[u64;", stringify!($n), "]>"), false, &msg, json!({"lg": lg})),
+                }
+            }
+        };
+    }
+    bigrec!(64);
+    bigrec!(256);
+    bigrec!(512);
+    bigrec!(1024);
+    bigrec!(1025);
+    bigrec!(2047);
+    bigrec!(2048);
+    bigrec!(4096);
     // sampled positions above 2^14 (u32 / u16 elements reach the chunked variant at 2^15 / 2^16)
     for (lg, bytes) in [(15usize, 8usize), (15, 4), (16, 4), (16, 2), (17, 4), (18, 8)] {
         let n = 1usize << lg;
@@ -984,6 +1011,23 @@ struct Bulk {
     fam_total: u64,
     fam_kept: u64,
     other_total: u64,
+    /// (type name, element bytes, lb_n, strategy) of every reverse_index_bits_in_place call
+    strategies: Vec<(String, usize, usize, &'static str)>,
+}
+/// Which variant `reverse_index_bits_in_place::<T>` takes, from the constants of /repo/util/src/lib.rs
+/// (SMALL_ARR_SIZE = 2^16, BIG_T_SIZE = 2^14; they are private, so transcribed here and in spec/BitRev*.cfg):
+/// the trivial swap loop iff size_of::<T>() << lb_n <= SMALL_ARR_SIZE or size_of::<T>() >= BIG_T_SIZE,
+/// otherwise rows reversal + one (even lb_n) or two (odd lb_n) square transposes + rows reversal.
+fn inplace_strategy(bytes: usize, lb: usize) -> &'static str {
+    const SMALL_ARR_SIZE: usize = 1 << 16;
+    const BIG_T_SIZE: usize = 1 << 14;
+    if (bytes << lb) <= SMALL_ARR_SIZE || bytes >= BIG_T_SIZE {
+        "small"
+    } else if lb % 2 == 0 {
+        "chunked_even"
+    } else {
+        "chunked_odd"
+    }
 }
 impl Bulk {
     /// mismatches on inputs of the two documented div_rem / inv_mod_xn defect families are capped
@@ -1338,6 +1382,7 @@ fn check_perm<T: Copy + PartialEq + Send + Sync>(bk: &mut Bulk, name: &str, lg: 
     let src: Vec<T> = (0..n).map(&make).collect();
     bk.cases += 2;
     bk.nontrivial += 1;
+    bk.strategies.push((name.to_string(), std::mem::size_of::<T>(), lg, inplace_strategy(std::mem::size_of::<T>(), lg)));
     match guarded(|| reverse_index_bits(&src)) {
         Ok(o) => {
             if o.len() != n || (0..n).any(|i| o[i] != src[rev_bits(i, lg)]) {
@@ -1357,8 +1402,36 @@ fn check_perm<T: Copy + PartialEq + Send + Sync>(bk: &mut Bulk, name: &str, lg: 
     }
 }
 
+/// `[u64; N]` tagged with its original index: word 0 = index, the other words derived from it
+fn big_elem<const N: usize>(i: usize) -> [u64; N] {
+    let mut a = [0u64; N];
+    for (k, w) in a.iter_mut().enumerate() {
+        *w = (i as u64).wrapping_mul(0x9E37_79B9_7F4A_7C15).rotate_left((k % 64) as u32) ^ (k as u64);
+    }
+    a[0] = i as u64;
+    a
+}
+
 fn bulk_perms(bk: &mut Bulk, lg_hi: usize) {
     let h = |i: usize| (i as u64).wrapping_mul(0x9E37_79B9_7F4A_7C15) >> 7;
+    // the strategy cut-over depends on the element size in bytes: with KiB-sized elements the
+    // chunked / transposing variant is already taken for arrays of 8 .. 64 elements
+    let deep = lg_hi > 18; // thorough: up to ~32 MiB per array
+    macro_rules! big {
+        ($n:literal, $quick:expr, $thorough:expr) => {
+            for lg in 0..=(if deep { $thorough } else { $quick }) {
+                check_perm::<[u64; $n]>(bk, concat!("[u64;", stringify!($n), "]"), lg, big_elem::<$n>);
+            }
+        };
+    }
+    big!(64, 11, 16); //   512 B: chunked from lb_n = 8
+    big!(256, 9, 14); //   2 KiB: chunked from lb_n = 6
+    big!(512, 8, 13); //   4 KiB: chunked from lb_n = 5
+    big!(1024, 8, 12); //  8 KiB: chunked from lb_n = 4
+    big!(1025, 8, 11); //  8 KiB + 8: chunked from lb_n = 3 (arrays of 8 elements)
+    big!(2047, 8, 10); //  BIG_T_SIZE - 8: chunked from lb_n = 3
+    big!(2048, 8, 10); //  BIG_T_SIZE: always the swap loop
+    big!(4096, 8, 10); //  32 KiB: always the swap loop
     for lg in 0..=lg_hi {
         check_perm::<u8>(bk, "u8", lg, |i| (h(i) % 251) as u8);
         check_perm::<u16>(bk, "u16", lg, |i| h(i) as u16);
@@ -1372,20 +1445,6 @@ fn bulk_perms(bk: &mut Bulk, lg_hi: usize) {
         if lg <= 15 {
             check_perm::<[u64; 4]>(bk, "[u64;4]", lg, |i| [i as u64, h(i), 0, 1]);
             check_perm::<[u64; 5]>(bk, "[u64;5]", lg, |i| [i as u64, h(i), 0, 1, 2]);
-        }
-        if lg <= 6 {
-            // elements of BIG_T_SIZE bytes and one word less
-            check_perm::<[u64; 2048]>(bk, "[u64;2048]", lg, |i| {
-                let mut a = [0u64; 2048];
-                a[0] = i as u64;
-                a[2047] = h(i);
-                a
-            });
-            check_perm::<[u64; 2047]>(bk, "[u64;2047]", lg, |i| {
-                let mut a = [0u64; 2047];
-                a[0] = i as u64;
-                a
-            });
         }
     }
     // transposes
@@ -1430,7 +1489,7 @@ fn bulk(args: &[String]) -> anyhow::Result<()> {
         Some(p) => Some(NdJson::create(p)?),
         None => None,
     };
-    let mut bk = Bulk { cases: 0, nontrivial: 0, mism: vec![], digest: 0xcbf29ce484222325, reflog, refn: 0, fam_total: 0, fam_kept: 0, other_total: 0 };
+    let mut bk = Bulk { cases: 0, nontrivial: 0, mism: vec![], digest: 0xcbf29ce484222325, reflog, refn: 0, fam_total: 0, fam_kept: 0, other_total: 0, strategies: vec![] };
     let mut r = rng(16);
     // reference multiply-accumulate on the boundary lattice: logged for TLC (Limbs oracle and the fast MacEq of PolyOps)
     if let Some(l) = bk.reflog.as_mut() {
@@ -1451,7 +1510,16 @@ fn bulk(args: &[String]) -> anyhow::Result<()> {
     bulk_poly(&mut bk, &mut r, npoly);
     bulk_perms(&mut bk, permlg);
     let reflog_events = bk.reflog.take().map(|l| l.finish()).unwrap_or(0);
-    emit(&json!({"kind": "c15-bulk", "cases": bk.cases, "nontrivial": bk.nontrivial, "mismatches": bk.mism, "mismatches_defect_families": bk.fam_total, "mismatches_other": bk.other_total,
+    // (element size, lb_n) -> strategy of reverse_index_bits_in_place, per element type
+    let mut strat: Vec<Value> = vec![];
+    let mut names: Vec<(String, usize)> = bk.strategies.iter().map(|s| (s.0.clone(), s.1)).collect();
+    names.sort_by_key(|x| (x.1, x.0.clone()));
+    names.dedup();
+    for (name, bytes) in names {
+        let pick = |what: &str| -> Vec<usize> { bk.strategies.iter().filter(|s| s.0 == name && s.3 == what).map(|s| s.2).collect() };
+        strat.push(json!({"type": name, "bytes": bytes, "small": pick("small"), "chunked_even": pick("chunked_even"), "chunked_odd": pick("chunked_odd")}));
+    }
+    emit(&json!({"kind": "c15-bulk", "inplace_strategies": strat, "cases": bk.cases, "nontrivial": bk.nontrivial, "mismatches": bk.mism, "mismatches_defect_families": bk.fam_total, "mismatches_other": bk.other_total,
                  "transform_digest": format!("{:016x}", transform_digest), "reference_ops": bk.refn, "reflog_events": reflog_events,
                  "packed_width": <<F as Packable>::Packing as PackedField>::WIDTH}));
     Ok(())
